@@ -124,7 +124,11 @@ class Project:
                 rel = cs[0].payload
                 if rel in self.unparsable:
                     return Err(Struct('syn::Error', {'msg': Str('parse error')}))
-                return Ok(self.ast(rel))
+                try:
+                    return Ok(self.ast(rel))
+                except ValueError:
+                    # syn itself rejects this text
+                    return Err(Struct('syn::Error', {'msg': Str('parse error')}))
             py = content.py()
             if py is None:
                 raise Inconclusive('syn::parse_file on symbolic text')
